@@ -180,7 +180,8 @@ def join(lines):
     return st.items, st.cmts
 
 
-DELIM = ",)="
+def is_word(c):
+    return ("0" <= c <= "9") or ("A" <= c <= "Z") or ("a" <= c <= "z") or c == "_"
 
 
 def squeeze(s):
@@ -192,8 +193,12 @@ def squeeze(s):
             prev_soft = True
         else:
             out.append(c)
-            prev_soft = c in DELIM
+            prev_soft = not is_word(c)
     return "".join(out)
+
+
+def canon(s):
+    return squeeze(squeeze(s)[::-1])[::-1]
 
 
 def jequiv(a, b):
@@ -203,7 +208,7 @@ def jequiv(a, b):
         if k1 != k2:
             return False
         if k1 in (KOMP, KACC):
-            if squeeze(t1) != squeeze(t2):
+            if canon(t1) != canon(t2):
                 return False
         elif t1 != t2:
             return False
